@@ -57,8 +57,8 @@ func c03Gen(rng *core.Rng, tier string) *harness.Plan {
 	if tier == "thorough" {
 		n = 60 + rng.IntN(300)
 	}
-	w := []int{5 + rng.IntN(5), 2 + rng.IntN(5), 2 + rng.IntN(4), 1 + rng.IntN(3), rng.IntN(2)}
-	kinds := []string{"lock", "forklock", "write", "finalize", "restart"}
+	w := []int{5 + rng.IntN(5), 2 + rng.IntN(5), 2 + rng.IntN(4), 1 + rng.IntN(3), rng.IntN(2), rng.IntN(3)}
+	kinds := []string{"lock", "forklock", "write", "finalize", "restart", "refinalize"}
 	hot := []int64{int64(rng.IntN(1000)), int64(rng.IntN(1000)), int64(rng.IntN(1000)), int64(rng.IntN(1000)), int64(rng.IntN(1000))}
 	for i := 0; i < n; i++ {
 		op := harness.Op{Kind: kinds[weighted(rng, w)], N: rng.IntN(4), A: int64(rng.IntN(1000)), M: rng.IntN(7)}
@@ -223,7 +223,8 @@ func c03Exec(p *harness.Plan) *harness.Outcome {
 		return nil
 	}
 
-	locksOK, locksRefused, takeovers, refusedFinal := 0, 0, 0, 0
+	locksOK, locksRefused, takeovers, refusedFinal, refinal := 0, 0, 0, 0, 0
+	usedNode := map[int]map[int]bool{}
 	for i, op := range p.Ops {
 		ti := int(op.A) % len(txs)
 		t := txs[ti]
@@ -314,6 +315,56 @@ func c03Exec(p *harness.Plan) *harness.Outcome {
 			}
 			t.finalized = true
 			c.out.Probes["finalized"]++
+		case "refinalize":
+			// the transaction that created a slot arrives a second time, in a snapshot of ANOTHER node, stamped
+			// before or after the snapshot that finalized it here (a batchable transaction is handed to several
+			// snapshot nodes; their snapshots arrive in any order): nothing may change
+			var us []int
+			for si, sl := range slots {
+				if sl.kind == "utxo" {
+					us = append(us, si)
+				}
+			}
+			if len(us) == 0 {
+				continue
+			}
+			si := us[int(op.A)%len(us)]
+			base, _, err := f.Store.ReadTransaction(slots[si].in.Hash)
+			if err != nil || base == nil {
+				return c.viol("read-error", "op %d: creating transaction of slot %d unreadable: %v", i, si, err)
+			}
+			// a node includes a transaction at most once (the kernel's per-node uniqueness record)
+			if usedNode[si] == nil {
+				usedNode[si] = map[int]bool{si % 7: true} // c03Setup finalized it on chain si%7
+			}
+			node := -1
+			for k := 0; k < 7; k++ {
+				if cand := (si + 1 + op.M%6 + k) % 7; !usedNode[si][cand] {
+					node = cand
+					break
+				}
+			}
+			if node < 0 {
+				continue
+			}
+			usedNode[si][node] = true
+			refinal++
+			when := f.BaseTime() - uint64(refinal)*uint64(time.Millisecond)
+			if op.N%3 == 0 {
+				ts += uint64(time.Millisecond)
+				when = ts
+			}
+			var ferr error
+			if g := c.guard("finalize-panic", func() {
+				_, ferr = f.Finalize(node, when, []*common.VersionedTransaction{base}, nil)
+			}); g != nil {
+				return g
+			}
+			c.logf("c%d refinalize creator of slot %d earlier=%v err=%v", op.N, si, when < ts, ferr != nil)
+			if ferr != nil {
+				return c.viol("finalize-error", "op %d: second snapshot with an already finalized transaction refused: %v", i, ferr)
+			}
+			c.out.Probes["finalized_again_in_another_snapshot"]++
 		case "restart":
 			if err := f.Reopen(false); err != nil {
 				return c.tool(err)
@@ -336,7 +387,7 @@ func init() {
 	harness.Register(&harness.Property{
 		ID:    "C03",
 		Level: "exploration",
-		Rule: "seeded interleavings (4 clients, call granularity) of ordinary and fork lock requests, body writes, finalizations and restarts over 2-5 output slots with 3-8 overlapping 1-2-input spends, 6 deposit identifiers differing only in chain/txid/index with 2 competing transactions each, and 2 mint batches with 3 competing transactions each; whole model re-read after every operation; " +
+		Rule: "seeded interleavings (4 clients, call granularity) of ordinary and fork lock requests, body writes, finalizations, second finalizations of a slot's creating transaction through a snapshot of another node (stamped before or after the first) and restarts over 2-5 output slots with 3-8 overlapping 1-2-input spends, 6 deposit identifiers differing only in chain/txid/index with 2 competing transactions each, and 2 mint batches with 3 competing transactions each; whole model re-read after every operation; " +
 			"Concurrent part (40% of the runs): 6-15 (thorough 10-49) rounds of 2-4 overlapping admissions (lock, then body write), finalization-path takeovers and lock reads over a contested slot, interleaved at store mutex acquisitions and Badger transaction begin/commit by a seeded scheduler (one task runs at a time); each round must be linearizable against the holder model (exhaustive search over the orders that respect real-time precedence) and leave the state that order produces; " +
 			"non-trivial = at least one lock granted and one refused; distinct = canonical-log digests. The cluster double-spend monitor (evidence of C01/C17 runs) adds the cross-node part.",
 		Components: r3Components,
